@@ -135,6 +135,8 @@ func ConfigBase(garbleBin, garbleHash string, cfg Config, level string) Base {
 	base := Base{GoCache: filepath.Join(dir, "gocache"), GarbleCache: filepath.Join(dir, "garblecache")}
 	done := filepath.Join(dir, ".done")
 	if _, err := os.Stat(done); err == nil {
+		now := time.Now()
+		os.Chtimes(root, now, now) // mark this garble binary's bases as recently used
 		return base
 	}
 	plain := PlainBase()
@@ -228,8 +230,8 @@ func pruneBases(keep string) {
 	}
 	sort.Slice(dirs, func(i, j int) bool { return dirs[i].mod.After(dirs[j].mod) })
 	for i, d := range dirs {
-		if i < 1 {
-			continue
+		if i < 3 {
+			continue // keep the three most recently used other binaries' bases
 		}
 		RemoveAll(filepath.Join(root, d.name))
 		matches, _ := filepath.Glob(filepath.Join(root, d.name+".*.lock"))
